@@ -41,6 +41,7 @@ func bothReject(pr ParseResult) bool {
 
 var reDigits = regexp.MustCompile(`[0-9]+`)
 var reQuoted = regexp.MustCompile(`'[^']*'|"[^"]*"`)
+
 // "0789.5": digits after a leading 0 that include 8 or 9 after an octal digit, followed by a fraction or exponent
 var reLegacyDecimalFraction = regexp.MustCompile(`(^|[^0-9A-Za-z_$.])0[0-7]+[89][0-9]*([.eE][0-9])`)
 var reASIPostfix = regexp.MustCompile(`(\+\+|--)[ \t]*(?:/\*[^*]*\*/[ \t]*)*\r?\n\s*(?:/\*[^*]*\*/\s*)*\(`)
